@@ -15,7 +15,7 @@ ID = 'C09'
 LEVEL = 'exploration'
 TECHNIQUE = 'bounded exhaustive enumeration of small grammars x modes x formats x options, independent decoders of PMCFG/RCG/LoPar files, CLI executed in-process'
 
-WORDS = ['w', 'Haus', 'ärger', 'w', 'Über']
+WORDS = ['w', 'Haus', 'ärger', 'w', 'Über', 'USA', '3D', 'eMail']
 MODES = [None,
          {'reordering': 'none', 'markov': None},
          {'reordering': 'optimal', 'markov': None},
@@ -394,15 +394,18 @@ def check_cli(mtjs, gramtype, markov, fmt, lig):
         # grammar file as the input of the grammar command
         if fmt == 'rcg' and not lig:
             dest2 = os.path.join(scratch(), 'c09again')
-            st, so, se, exc = cli.run(['grammar', dest, dest2, 'treebank', '--src-format', 'rcg', '--dest-format', 'pmcfg'])
-            if st != 0:
-                bad('cli-failed', 'grammar-file input: exit status %r %s' % (st, cli.describe(exc)))
-            else:
-                got2 = decode_pmcfg(read(dest2 + '.pmcfg', 'utf-8'))
-                if got2 != expG:
-                    bad('grammar-input', 'using the RCG file as input yields %r instead of %r' % (got2, expG))
-                if decode_lex(read(dest2 + '.lex', 'utf-8')) != explex:
-                    bad('grammar-input-lexicon', 'lexicon %r instead of %r' % (decode_lex(read(dest2 + '.lex', 'utf-8')), explex))
+            for denc in ('utf-8', 'latin-1'):
+                st, so, se, exc = cli.run(['grammar', dest, dest2, 'treebank', '--src-format', 'rcg', '--dest-format', 'pmcfg',
+                                           '--dest-enc', denc])
+                if st != 0:
+                    bad('cli-failed', 'grammar-file input (--dest-enc %s): exit status %r %s' % (denc, st, cli.describe(exc)))
+                else:
+                    got2 = decode_pmcfg(read(dest2 + '.pmcfg', denc))
+                    if got2 != expG:
+                        bad('grammar-input', 'using the RCG file as input (--dest-enc %s) yields %r instead of %r' % (denc, got2, expG))
+                    if decode_lex(read(dest2 + '.lex', denc)) != explex:
+                        bad('grammar-input-lexicon', 'lexicon %r instead of %r (--dest-enc %s)'
+                            % (decode_lex(read(dest2 + '.lex', denc)), explex, denc))
     except Bad as e:
         bad('malformed-file', str(e))
     except Exception as e:
@@ -418,10 +421,12 @@ def check_case(case):
 
 
 def banks(n):
+    k = 0
     for sh, _ in model.shapes_with_unary(n, 1):
         for mt in labelings(sh):
+            k += 1
             for i, tk in enumerate(mt.toks):
-                tk['word'] = WORDS[i % len(WORDS)]
+                tk['word'] = WORDS[(i + 3 * k) % len(WORDS)]
             yield [mt]
 
 
